@@ -44,6 +44,8 @@ F22 == [doms |-> <<D2, D2>>, shape |-> <<2, 2>>, w |-> <<1, 2, 3, 4>>]
 InterpCalls ==
        { [op |-> "add_edge", h |-> h, e |-> e] : h \in Handles, e \in { x \in EdgeVals : x.id = "e" /\ x.lab \in {La, Lb} /\ \A i \in DOMAIN x.att : x.att[i] = NA } }
   \cup { [op |-> "copy", h |-> h] : h \in Handles } \cup { [op |-> "new", h |-> "g2"] }
+  \cup { [op |-> "from_graph", h |-> h] : h \in Handles }          \* the OTHER handle := FactorGraph.from_graph(h)
+  \cup { [op |-> "set_ext", h |-> h, x |-> x] : h \in Handles, x \in {<<>>, <<NA>>, <<NA, NY>>} }
   \cup { [op |-> "add_domain", h |-> h, nl |-> nl, dom |-> d] : h \in Handles, nl \in {"A", "B"}, d \in {D2, D3} }
   \cup { [op |-> "add_factor", h |-> h, el |-> l, fac |-> f] : h \in Handles, l \in {La, La2, Lb}, f \in {F2, F3, F22} }
   \cup { [op |-> "set_weights", h |-> h, name |-> "a", w |-> w] : h \in Handles, w \in {<<7, 8>>, <<7, 8, 9>>} }
